@@ -513,6 +513,14 @@ func (a *Agg) Add(j Job, r *JobResult) {
 	for k, v := range r.Outcomes {
 		a.Outcomes[k] += v
 	}
+	for i := range r.Viols {
+		if r.Viols[i].Job == nil {
+			// every violation is replayable: by default re-run the job that reported it
+			jj := j
+			jj.Until, jj.Budget = 0, 0
+			r.Viols[i].Job = &jj
+		}
+	}
 	a.Viols = append(a.Viols, r.Viols...)
 	if r.Err != "" {
 		a.Errs = append(a.Errs, r.Err)
